@@ -19,8 +19,9 @@ RULE = ("one run = one work directory with 1-3 approved images (random file sets
         "listdir and at most one fault (process crash = uncatchable exception, or OSError EIO/ENOSPC) at one of the enumerated "
         "points: before/after each listdir, before each source open, after makedirs, after the truncating open, after k bytes of "
         "a copy chunk (short/torn write), after each put_item, before/after replace and rename; attempts repeat until one is "
-        "fault-free; the real refresh runs after every attempt; non-trivial = at least one fault fired; distinct = distinct sha1 "
-        "of the operation/fault log")
+        "fault-free; the real refresh runs after every attempt; the first 480 run indices of every batch are stratified over "
+        "(0-3 extra files) x (first-attempt fault point 1-40) x (crash / EIO / ENOSPC) for a single small image, everything else "
+        "is drawn; non-trivial = at least one fault fired; distinct = distinct sha1 of the operation/fault log")
 COMPONENTS = {
     "real": ["toasty.pipeline.PipelineManager.publish", "toasty.pipeline.local_io.LocalPipelineIo.put_item/check_exists",
              "toasty.pipeline.cli.refresh_impl", "PipelineIo.load_from_config (real toasty-store-config.yaml)", "real directories on tmpfs"],
@@ -48,6 +49,22 @@ REQUIRED_PROBES = {
 }
 CHUNK = 100
 SELFTEST_EVERY = 20
+
+
+N_SYSTEMATIC = 4 * 40 * 3
+
+
+def systematic(i):
+    """Stratified part of every batch: run index i < 480 fixes (number of extra files 0-3, first-attempt fault point
+    1-40, fault kind) for a single small image; listing orders and later attempts stay random.  Together with the
+    seeded rest this makes sure that every individual fault point of small file sets is hit in every batch."""
+    if i >= N_SYSTEMATIC:
+        return None
+    n = i % 4
+    fault_at = (i // 4) % 40
+    kind = (i // 160) % 3
+    #       nimg nfiles  file names   sizes (100 bytes; index.wtml 300)   inject fault_at kind
+    return [0, n] + [0] * n + [2] * (n + 1) + [0, fault_at, kind]
 
 
 class Crash(BaseException):
@@ -420,6 +437,8 @@ def run_one(ch, env):
     res["steps"] = len(c.log)
     res["trace"] = c.log[:60]
     res["extra"]["attempts_%d" % min(attempt, 6)] = 1
+    if res["config"]["attempts"] and res["config"]["attempts"][0]["fired"]:
+        res["extra"]["first_attempt_fault_fired"] = 1
     return res
 
 
